@@ -218,6 +218,10 @@ inline std::vector<Outcome> specContainer(const Snap &b, const ContainerCall &c)
                 out.push_back(Outcome {b, "*"});
                 continue;
             }
+            if (b[size_t(c.y)].parent == holder && (out.empty() || out[0].ret != "false")) {
+                // the replacement is already a child of that container: refusing is permitted (so is the move below)
+                out.insert(out.begin(), Outcome {b, "false"});
+            }
             Snap s = b;
             unlink(s, c.y);
             auto &l = s[size_t(holder)].kids[c.fam];
